@@ -28,6 +28,10 @@ package keep_fields
 // length differing only in the last byte, one equal to them up to that byte and one byte longer, a dotted one
 // (escaped in the selector), one differing in the first byte; document, selectors and expectation renamed alike.
 //
+// NUMBER OF SELECTORS (specification lemma PadIrrelevant): ordinary cases also run, through a fresh instance, with
+// the selector list padded to 9, 10, 16 or 40 selectors by selectors whose first name no document has (pad_NNN; half
+// of them before, half after the case's own selectors; in every second variant one pad selector is nested, pad_x.y).
+//
 // INSTANCES (the per-depth buffers belong to ONE plugin instance): for a seeded sample of selector lists
 // (VERIF_STRESS) N >= 4 real plugin instances are started from ONE shared Config object, the way the pipeline does
 // (pipeline.newProc / processor.start: one Config, one plugin per processor), and run concurrently for a bounded time,
@@ -74,6 +78,10 @@ const (
 const c18JunkKey = 9
 
 var c18KeyNames = map[int]string{1: "a", 2: "b", 3: "a.b", 4: "a.b.a", 5: "b.a"}
+
+var c18PadEvery = 1 // VERIF_PAD_EVERY: every n-th ordinary case also runs with a padded selector list
+
+var c18PadSizes = []int{9, 10, 16, 40}
 
 var c18NameAll = false // VERIF_NAME_ALL=1 (replay): every ordinary case under every name table
 
@@ -273,6 +281,7 @@ type c18Case struct {
 	hasModel bool
 	codes    [][]int
 	NameLen  int // 0 = the specification's own names; else the length of the name table used
+	ListLen  int // 0 = the case's own selector list; else the length it was padded to
 }
 
 // the selector list as a user writes it, for a name table
@@ -420,6 +429,7 @@ type c18Mismatch struct {
 	Event     int      `json:"event"`      // n-th Do of the plugin instance
 	EvKind    string   `json:"event_kind"` // regular | child | child_parent | pipeline_regular | pipeline_child
 	Width     int      `json:"width"`      // 0 = not a widened case; else the number of junk members per marker
+	ListLen   int      `json:"list_len"`   // 0 = the case's own list; else the number of selectors after padding
 	NameLen   int      `json:"name_len"`   // 0 = the specification's names; else the length of the names used
 	Order     string   `json:"width_order,omitempty"`
 	Instances int      `json:"instances,omitempty"` // concurrent runs: plugin instances started from the one config
@@ -437,6 +447,30 @@ type c18Event struct {
 	width            int
 	kind             string // regular | child | child_parent
 	doc, want, model string
+	altModels        []string // further orders the known deviation may give (see c18PermutedModels)
+}
+
+// remove_fields deletes in the order ParseNestedFields leaves the selectors in; sort.Slice is an unstable sort beyond
+// 12 elements, so for long lists the order among selectors of equal length is unspecified: every permutation of the
+// case's own selectors is a possible deletion order of the known deviation.
+func c18PermutedModels(c *c18Case, doc *c18Node) []string {
+	if c18IsKeep || len(c.Paths) > 4 {
+		return nil
+	}
+	var out []string
+	var rec func(done, rest [][]string)
+	rec = func(done, rest [][]string) {
+		if len(rest) == 0 {
+			out = append(out, c18PredictRemove(doc, done).text())
+			return
+		}
+		for i := range rest {
+			nr := append(append([][]string(nil), rest[:i]...), rest[i+1:]...)
+			rec(append(append([][]string(nil), done...), rest[i]), nr)
+		}
+	}
+	rec(nil, c.Paths)
+	return out
 }
 
 // compares one produced document with the expectation; nil = as expected
@@ -471,7 +505,7 @@ func c18RunInstance(c *c18Case, params *pipeline.ActionPluginParams, events []c1
 	cur := c18Event{}
 	defer func() {
 		if r := recover(); r != nil {
-			mm = append(mm, &c18Mismatch{Plugin: c18Plugin, Kind: "panic", Event: n, EvKind: cur.kind, NameLen: c.NameLen, Width: cur.width, Order: order, Fam: c.Fam,
+			mm = append(mm, &c18Mismatch{Plugin: c18Plugin, Kind: "panic", Event: n, EvKind: cur.kind, NameLen: c.NameLen, ListLen: c.ListLen, Width: cur.width, Order: order, Fam: c.Fam,
 				Doc: c18Short(cur.doc), Fields: c.Sels, Want: c18Short(cur.want), Panic: fmt.Sprint(r), Case: c.Line})
 		}
 	}()
@@ -514,7 +548,7 @@ func c18RunInstance(c *c18Case, params *pipeline.ActionPluginParams, events []c1
 			insaneJSON.Release(parent)
 		}
 
-		m := &c18Mismatch{Plugin: c18Plugin, Event: n, EvKind: ev.kind, NameLen: c.NameLen, Width: ev.width, Order: order, Fam: c.Fam, Doc: c18Short(ev.doc),
+		m := &c18Mismatch{Plugin: c18Plugin, Event: n, EvKind: ev.kind, NameLen: c.NameLen, ListLen: c.ListLen, Width: ev.width, Order: order, Fam: c.Fam, Doc: c18Short(ev.doc),
 			Fields: c.Sels, Want: c18Short(ev.want), Got: c18Short(got), Case: c.Line}
 		if res != pipeline.ActionPass {
 			m.Kind = "content"
@@ -523,6 +557,13 @@ func c18RunInstance(c *c18Case, params *pipeline.ActionPluginParams, events []c1
 			continue
 		}
 		if bad := c18Judge(m, got, ev.want, ev.model); bad != nil {
+			if bad.Kind == "key_order" && !bad.AsSwap {
+				for _, alt := range ev.altModels {
+					if alt == got {
+						bad.AsSwap = true
+					}
+				}
+			}
 			mm = append(mm, bad)
 		}
 	}
@@ -554,6 +595,40 @@ func c18Exec(c *c18Case, params *pipeline.ActionPluginParams, idx int) (mm []*c1
 		mm = c18RunInstance(c, params, []c18Event{ev, ev, child, childParent}, "")
 		// the same case under a name table of another length (fresh instance, one regular event);
 		// every c18NameEvery-th case
+		if idx%c18PadEvery == 0 || c18NameAll {
+			variants := []int{(idx / c18PadEvery) % (2 * len(c18PadSizes))}
+			if c18NameAll {
+				variants = []int{0, 1, 2, 3, 4, 5, 6, 7}
+			}
+			for _, v := range variants {
+				size, nested := c18PadSizes[v%len(c18PadSizes)], v >= len(c18PadSizes)
+				pc := *c
+				pc.ListLen = size
+				var front, back []string
+				for j := 0; len(c.Sels)+len(front)+len(back) < size; j++ {
+					name := fmt.Sprintf("pad_%03d", j)
+					if nested && j == 0 {
+						name = "pad_x.y"
+					}
+					if j%2 == 0 {
+						front = append(front, name)
+					} else {
+						back = append(back, name)
+					}
+				}
+				pc.Sels = append(append(append([]string(nil), front...), c.Sels...), back...)
+				pc.Paths = nil
+				for range front {
+					pc.Paths = append(pc.Paths, []string{"pad"})
+				}
+				pc.Paths = append(pc.Paths, c.Paths...)
+				pev := ev
+				if size > 12 {
+					pev.altModels = c18PermutedModels(c, doc)
+				}
+				mm = append(mm, c18RunInstance(&pc, params, []c18Event{pev}, "")...)
+			}
+		}
 		if idx%c18NameEvery != 0 && !c18NameAll {
 			return mm, nontrivial, reorder, predictorOff
 		}
@@ -638,6 +713,12 @@ func TestVerifC18(t *testing.T) {
 		}
 	}
 	c18NameAll = os.Getenv("VERIF_NAME_ALL") == "1"
+	if n := 0; true {
+		fmt.Sscan(os.Getenv("VERIF_PAD_EVERY"), &n)
+		if n > 1 {
+			c18PadEvery = n
+		}
+	}
 	seedShift := 0
 	fmt.Sscan(os.Getenv("VERIF_SEED"), &seedShift)
 	if seedShift < 0 {
@@ -673,6 +754,11 @@ func TestVerifC18(t *testing.T) {
 				} else {
 					events += 4
 					if c18NameAll {
+						events += 8
+					} else if (i+seedShift)%c18PadEvery == 0 {
+						events++
+					}
+					if c18NameAll {
 						events += len(c18NameLens)
 					} else if (i+seedShift)%c18NameEvery == 0 {
 						events++
@@ -688,7 +774,7 @@ func TestVerifC18(t *testing.T) {
 					predictorOff++
 				}
 				for _, m := range mm {
-					class := fmt.Sprintf("%s/%v/%s/event%d/width%d%s/len%d", m.Kind, m.AsSwap, m.EvKind, m.Event, m.Width, m.Order, m.NameLen)
+					class := fmt.Sprintf("%s/%v/%s/event%d/width%d%s/len%d", m.Kind, m.AsSwap, m.EvKind, m.Event, m.Width, m.Order, m.NameLen*1000+m.ListLen)
 					counts[class]++
 					if len(kept[class]) < perClass {
 						kept[class] = append(kept[class], m)
